@@ -34,7 +34,7 @@ MODES = [('none', None), ('start', 'start'), ('end', 'end'), ('mid', 'mid')]
 
 # ---------------------------------------------------------------------------------------------------- running average
 
-PROP_MODULES = ['C17', 'C17Gen', 'C17Gen2']
+PROP_MODULES = ['C17', 'C17Gen', 'C17Gen2', 'C17Butter', 'C17Rolling', 'C17GenRolling']
 
 def ra_spec(orig, w):
     n = len(orig)
@@ -763,6 +763,9 @@ _run_main2 = run
 def run(ctx):
     _run_main2(ctx)
     extras2(ctx)
+    from _c17_butter import corr_butter, gain_model
+    corr_butter(ctx)      # model (b, a) vs the (b, a) scipy.signal.butter returns inside Signal.butter_pass (call intercepted), incl. ValueError cut-offs
+    gain_model(ctx)       # closed-form gain (proved: Props/C17Butter) vs |freqz|^2 of SciPy's own (b, a) (1e-9, well-conditioned) and |freqz_zpk|^2 (1e-9, all)
     ctx.flush()
 
 
